@@ -2,7 +2,7 @@
 import itertools
 import numpy as np
 from harness import coqio as Q
-from harness.impl import seq_with_ca, coded_cube, decode, exc_name
+from harness.impl import poke, seq_with_ca, coded_cube, decode, exc_name
 
 CORR = "C12_corr"
 MODEL_FILES = ["Model/M_IndexAsCube.v", "Base/PyIndex.v"]
@@ -68,8 +68,8 @@ def gen(tier, rng):
         ca_it = rng.choice(ints) if rng.random() < 0.3 else (rng.choice(sls) if rng.random() < 0.85 else ["s", None, None, None])
         items = [rng.choice(other_items) for _ in range(nd)]
         items[ca] = ca_it
-        # sometimes omit trailing items (only allowed when they are after the common axis)
-        cut = rng.randrange(ca + 1, nd + 1)
+        # sometimes omit trailing items, the common axis' own item included (it is then the implicit full slice)
+        cut = rng.randrange(ca + 1, nd + 1) if rng.random() < 0.7 else rng.randrange(1, nd + 1)
         items = items[:cut]
         if len(items) == nd and all(isinstance(i, int) for i in items):
             continue        # 0-d result: not a cube
@@ -92,6 +92,7 @@ def run(case):
     from ndcube import NDCube, NDCubeSequence
     nd, ca = case["nd"], case["ca"]
     seq, cubes = _build(case)
+    poke(seq, case["key"])
     items = Q.dec_items(case["items"])
     items_impl = Q.np_ints(case["key"], items)           # what the implementation is given (numpy integers in every fourth case)
     item = items_impl[0] if case["bare"] and len(items) == 1 else items_impl
